@@ -140,6 +140,57 @@ def run(ctx):
                             "posts": posts, "exc": exc})
                 ctx.nontrivial.add((call["kind"], call["mode"], adv, beh["sets"]["cfg"], beh["sets"]["svc"], call["client"]))
             shutil.rmtree(data, ignore_errors=True)
+        # ---- two tenants of one provider: URLs that differ in the query string only, equal ORG / FID, one data directory;
+        # the servers honour DTPROFUP ("up to date" when the client names their profile's date)
+        import pc_sched
+        for ti in range(6 if quick else 80):
+            data = Path(ctx.work) / "data" / ("t%d" % ti)
+            data.mkdir(parents=True, exist_ok=True)
+            config.DATADIR = data
+            T = {"t1": ("https://prov.invalid/tf/OFXServer?tr=OFX&cl=111", "https://prov.invalid/tf/OFXServer?tr=STMT&cl=111"),
+                 "t2": ("https://prov.invalid/tf/OFXServer?tr=OFX&cl=222", "https://prov.invalid/tf/OFXServer?tr=STMT&cl=222")}
+            label = {}
+            for t_, (cu, su) in T.items():
+                label[cu] = "cfg-" + t_
+                label[su] = "svc-" + t_
+            net.log = []
+            net.sets_cookie = {}
+
+            def responder(host, path, body, _T=T):
+                full = net.log[-1]["url"]             # (the record of this very request: the full URL with its query)
+                t_ = "t1" if "cl=111" in full else "t2"
+                if b"<PROFRQ>" in body:
+                    asked = pc_sched.asked_dt(body)
+                    if asked >= 1:
+                        return 200, ofx_server.profile(mins, _T[t_][1], status="1", with_profrs=False).encode()
+                    return 200, ofx_server.profile(mins, _T[t_][1], dtprofup="20200101000000.000[+0:UTC]").encode()
+                return 200, ofx_server.empty_response(mins).encode()
+            net.responder = responder
+            userid, password = "tuser%d" % ti, "t&pw%d" % ti
+            evs.append({"id": "tn%d" % ti, "op": "env", "adv": "svc", "sets": {"cfg": False, "svc": False}, "userid": cps(userid),
+                        "password": cps(password), "useragent": {c: [] for c in ("c1", "c2", "c3")}, "nopersist": []})
+            order = [rnd.choice(["t1", "t2"]) for _ in range(rnd.randrange(2, 6))]
+            if len(set(order)) == 1:
+                order.append("t2" if order[0] == "t1" else "t1")
+            for ci, t_ in enumerate(order):
+                cl = OFXClient(T[t_][0], userid=userid, org="PROV", fid="9", version=203, bankid="123", brokerid="b.com")
+                n0 = len(net.log)
+                exc = ""
+                try:
+                    k_ = rnd.choice(["stmt", "acctinfo", "tax"])
+                    if k_ == "stmt":
+                        cl.request_statements(password, StmtRq(acctid="1", accttype="CHECKING"))
+                    elif k_ == "acctinfo":
+                        cl.request_accounts(password, datetime.datetime(2020, 1, 1, tzinfo=datetime.timezone.utc))
+                    else:
+                        cl.request_tax1099(password, "2019")
+                except Exception as e:
+                    exc = type(e).__name__ + ": " + str(e)[:100]
+                posts = [{"host": label.get(rec["url"], rec["url"] or "?"), "file": list(rec["body"])} for rec in net.log[n0:]]
+                evs.append({"id": "tn%dc%d" % (ti, ci), "op": "tcall", "tenant": t_, "client": "c1", "kind": k_, "mode": "normal", "posts": posts,
+                            "exc": exc, "userid": cps(userid), "password": cps(password)})
+                ctx.nontrivial.add(("tenant", t_, k_, ci > 0))
+            shutil.rmtree(data, ignore_errors=True)
     finally:
         net.uninstall()
     ctx.evaluations = len(evs)
@@ -152,6 +203,6 @@ def run(ctx):
         e = byid[eid]
         for cl in clauses:
             ctx.fail({"clause": cl.split(" ")[0], "detail": cl, "client": e["client"], "kind": e["kind"], "mode": e["mode"], "exc": e["exc"],
-                      "posts": [{"host": p["host"], "cookie": p["cookie"]} for p in e["posts"]],
+                      "posts": [{"host": p["host"], "cookie": p.get("cookie")} for p in e["posts"]],
                       "what": "%s call=%s/%s/%s posts=%s exc=%s" % (cl, e["client"], e["kind"], e["mode"],
-                                                                    [(p["host"], p["cookie"]) for p in e["posts"]], e["exc"])})
+                                                                    [(p["host"], p.get("cookie")) for p in e["posts"]], e["exc"])})
